@@ -441,7 +441,7 @@ def _check_probe(case):
         axes_expected = cs
     w = mk().build(scan=scan, lazy=case["lazy"], max_batch=case["max_batch"])
     if case["lazy"]:
-        w = w.compute(scheduler="synchronous")
+        w = w.compute(scheduler="synchronous", progress_bar=False)
     w0 = mk().build(scan=[(0.0, 0.0)], lazy=False)
     psi0 = np.asarray(w0.array)
     if psi0.shape != gpts:
